@@ -267,6 +267,24 @@ pub fn workload(tier: Tier) -> Vec<Work> {
         }
         w.push(Work { space: "B5/orig-count", prog, stack: false, layout: Layout::PLAIN });
     }
+    // the same with origins of which some are zero (x0000 is an origin like any other: a second
+    // `.orig` behind it is still a second one), in hexadecimal and decimal spelling
+    for mask in 0..16u32 {
+        for (vi, vals) in [[Lit::hex(0x0000), Lit::hex(0x3000), Lit::hex(0x0000), Lit::hex(0x0001)], [Lit::dec(0), Lit::dec(0), Lit::hex(0x3000), Lit::dec(0)]].into_iter().enumerate() {
+            let mut prog = Program::default();
+            let stmts = [Stmt::Add(0, 0, Src2::Reg(0)), Stmt::Fill(Lit::hex(7)), Stmt::Named(0x25, "halt")];
+            for g in 0..4 {
+                if mask >> g & 1 == 1 {
+                    prog.items.push(Item::Orig(vals[g].clone()));
+                }
+                if g < 3 {
+                    prog.push(None, stmts[g].clone());
+                }
+            }
+            let _ = vi;
+            w.push(Work { space: "B5/orig-count", prog, stack: false, layout: Layout::PLAIN });
+        }
+    }
     // doubled .orig directly after each other
     let mut prog = Program::default();
     prog.items.push(Item::Orig(Lit::hex(0x3000)));
